@@ -24,6 +24,10 @@ SEEDS = {"quick": [0, 42, "s", ""], "thorough": [0, 1, 42, "s", "", -5, 0.0, 2.5
 
 def child(hashseed, seeds, tier, mode, order="fwd"):
     e = dict(os.environ)
+    order, _, envspec = order.partition("@")        # "fwd@TZ=AAA-12": extra environment
+    for kv in filter(None, envspec.split(",")):
+        name, _, val = kv.partition("=")
+        e[name] = val
     e["PYTHONHASHSEED"] = hashseed
     e["PYTHONDONTWRITEBYTECODE"] = "1"
     e["D42_REPO"] = env.REPO
@@ -64,6 +68,9 @@ def configurations(tier, seed):
         out.append(("further-instances-created-after-seeding", hs[0], [k], "fwd+instances"))
         if k == ks[0]:
             out.append(("temporary-schemas-generated-and-dropped-before", hs[0], [k], "fwd+churn"))
+            # the process environment: two time zones half a day either side of UTC
+            out.append(("environment-TZ", hs[0], [k], "fwd@TZ=AAA-12"))
+            out.append(("environment-TZ", hs[0], [k], "fwd@TZ=BBB+11"))
         other = ks[(ks.index(k) + 1) % len(ks)]
         out.append((f"after-seed-{other!r}", hs[0], [other, k], "fwd"))
     return out
@@ -144,7 +151,8 @@ def run(tier, seed):
             what = {"reverse-order": "enumeration-order",
                     "further-instances-created-after-seeding": "further-instances-created-after-seeding",
                     "temporary-schemas-generated-and-dropped-before":
-                        "temporary-schemas-generated-and-dropped-before"
+                        "temporary-schemas-generated-and-dropped-before",
+                    "environment-TZ": "the-TZ-environment-variable"
                     }.get(label, "an-earlier-seed-in-the-same-process")
             i = diff[0]
             members = sorted({show(terms[j]) for i2 in diff[:200] for j in seqs[i2]})
